@@ -319,6 +319,8 @@ class RealRun:
             dr, dm = (mb, 0) if cfg.get('as_ranks') else (self.rank, mb)
             x = R.batch_for(cfg['model'], cfg.get('batch', 2), self.dtype,
                             dr, self.it, dm, self.seed)
+            if cfg.get('x_mult'):
+                x = x * cfg['x_mult']
             out = self.model(x)
             loss = R.loss_fn(out, dr, self.it, dm, self.seed)
             # as_ranks: every micro-batch is a rank's full batch (loss not
@@ -480,6 +482,7 @@ def ref_key(cfg):
                     cfg.get('batch', 2), cfg.get('world', 1),
                     cfg.get('seed', 0), cfg.get('scale'),
                     cfg.get('zero_loss'), cfg.get('loss_mult'),
+                    cfg.get('x_mult'),
                     cfg.get('sgd_lr', 0.05), cfg['history'], keep])
 
 
@@ -556,6 +559,8 @@ class RefRun:
                 for mb in range(acc):
                     x = R.batch_for(cfg['model'], cfg.get('batch', 2), dtype,
                                     r, it, mb, seed)
+                    if cfg.get('x_mult'):
+                        x = x * cfg['x_mult']
                     o = twin.model(x)
                     loss = R.loss_fn(o, r, it, mb, seed) / acc \
                         * cfg.get('loss_mult', 1.0)
